@@ -1,18 +1,253 @@
 /-
   Byte level = instruction level for the arms of opcode class `aluOpcodes` (see Lemmas/X86Enc/Arm.lean).
+
+  Method: for one literal opcode `k` the two `arm` functions are computed by
+  `unfold arm; rw [hd, hs]; dsimp only; rw [ho]; rfl` (`hd hs : mapRegister? … = some …`, `ho : i.opc.toNat = k`): after the
+  scrutinee of the 150-way `match` is a literal, `rfl` reduces it by evaluation — no `simp`/`split` over the big term.
+  `aenc_finish` takes the `prim_emits_*` fact first, so that the emitter state and the instruction list the two arms
+  have to compute to are read off its statement.
 -/
 import RbpfModel.Model.JitSim
 import RbpfModel.Lemmas.X86Enc.Prim
 namespace Rbpf.JitEnc
 open Rbpf.X86 (Instr Cc decode ccOf)
 open Rbpf.JitAst (AI Tgt)
-open Rbpf.JitEmit (Em Fail)
+open Rbpf.JitEmit (Em Fail mapRegister?)
 open Rbpf.JitSim (aluOpcodes mulDivOpcodes jumpOpcodes memOpcodes)
+
+/-- compute `JitEmit.arm` / `JitAst.arm` at a literal opcode: `ho : i.opc.toNat = <literal>`, `hd hs` the mapped registers -/
+macro "aenc_arm " ho:ident hd:ident hs:ident : tactic =>
+  `(tactic| ((first | unfold JitEmit.arm | unfold JitAst.arm); rw [$hd:ident, $hs:ident]; dsimp only; rw [$ho:ident]; rfl))
+
+theorem aenc_finish {e e' : Em} {haddr : Nat → Option Nat} {pc n : Nat} {i : Insn} {nx : Option Insn}
+    {E : Em} {A : List AI} {k : Nat}
+    (h : JitEmit.arm e haddr pc i nx = .ok (e', n)) (hem : Emits e E A)
+    (h1 : JitEmit.arm e haddr pc i nx = .ok (E, k)) (h2 : JitAst.arm haddr pc i nx = .ok (A, k)) :
+    ∃ ais, JitAst.arm haddr pc i nx = .ok (ais, n) ∧ Emits e e' ais := by
+  rw [h1] at h
+  cases h
+  exact ⟨A, h2, hem⟩
+
+-- one opcode whose arm is unconditional: `t` is the `Emits` fact for what the arm emits
+set_option hygiene false in
+local macro "aenc_case " name:ident opc:num " => " t:term : command =>
+  `(theorem $name (e e' : Em) (haddr : Nat → Option Nat) (pc n : Nat) (i : Insn) (nx : Option Insn) (d s : Nat)
+      (ho : i.opc.toNat = $opc) (hd : mapRegister? i.dst.toNat = some d) (hs : mapRegister? i.src.toNat = some s)
+      (hdl : d < 16) (hsl : s < 16) (h : JitEmit.arm e haddr pc i nx = .ok (e', n)) :
+      ∃ ais, JitAst.arm haddr pc i nx = .ok (ais, n) ∧ Emits e e' ais :=
+    aenc_finish (k := 1) h $t (by aenc_arm ho hd hs) (by aenc_arm ho hd hs))
+
+-- ---------------------------------------------------------------------------------------------------------
+-- BPF_ALU64
+
+aenc_case aenc_op_07 0x07 => prim_emits_alu64Imm32_bv e 0 d .add i.imm rfl hdl
+aenc_case aenc_op_0f 0x0f => prim_emits_alu64 e 0x01 s d .add rfl hsl hdl
+aenc_case aenc_op_17 0x17 => prim_emits_alu64Imm32_bv e 5 d .sub i.imm rfl hdl
+aenc_case aenc_op_1f 0x1f => prim_emits_alu64 e 0x29 s d .sub rfl hsl hdl
+aenc_case aenc_op_47 0x47 => prim_emits_alu64Imm32_bv e 1 d .or i.imm rfl hdl
+aenc_case aenc_op_4f 0x4f => prim_emits_alu64 e 0x09 s d .or rfl hsl hdl
+aenc_case aenc_op_57 0x57 => prim_emits_alu64Imm32_bv e 4 d .and i.imm rfl hdl
+aenc_case aenc_op_5f 0x5f => prim_emits_alu64 e 0x21 s d .and rfl hsl hdl
+aenc_case aenc_op_67 0x67 => prim_emits_shiftI64_bv e 4 d .shl i.imm rfl hdl
+aenc_case aenc_op_6f 0x6f =>
+  prim_emits_cons (prim_emits_mov e s JitEmit.RCX hsl (by decide)) (prim_emits_shiftCl64 _ 4 d .shl rfl hdl)
+aenc_case aenc_op_77 0x77 => prim_emits_shiftI64_bv e 5 d .shr i.imm rfl hdl
+aenc_case aenc_op_7f 0x7f =>
+  prim_emits_cons (prim_emits_mov e s JitEmit.RCX hsl (by decide)) (prim_emits_shiftCl64 _ 5 d .shr rfl hdl)
+aenc_case aenc_op_87 0x87 => prim_emits_neg64 e d hdl
+aenc_case aenc_op_a7 0xa7 => prim_emits_alu64Imm32_bv e 6 d .xor i.imm rfl hdl
+aenc_case aenc_op_af 0xaf => prim_emits_alu64 e 0x31 s d .xor rfl hsl hdl
+aenc_case aenc_op_b7 0xb7 => prim_emits_loadImm e d i.imm.toInt hdl
+aenc_case aenc_op_bf 0xbf => prim_emits_mov e s d hsl hdl
+aenc_case aenc_op_c7 0xc7 => prim_emits_shiftI64_bv e 7 d .sar i.imm rfl hdl
+aenc_case aenc_op_cf 0xcf =>
+  prim_emits_cons (prim_emits_mov e s JitEmit.RCX hsl (by decide)) (prim_emits_shiftCl64 _ 7 d .sar rfl hdl)
+
+-- ---------------------------------------------------------------------------------------------------------
+-- BPF_ALU (32 bit)
+
+aenc_case aenc_op_04 0x04 => prim_emits_alu32Imm32_bv e 0 d .add i.imm rfl hdl
+aenc_case aenc_op_0c 0x0c => prim_emits_alu32 e 0x01 s d .add rfl hsl hdl
+aenc_case aenc_op_14 0x14 => prim_emits_alu32Imm32_bv e 5 d .sub i.imm rfl hdl
+aenc_case aenc_op_1c 0x1c => prim_emits_alu32 e 0x29 s d .sub rfl hsl hdl
+aenc_case aenc_op_44 0x44 => prim_emits_alu32Imm32_bv e 1 d .or i.imm rfl hdl
+aenc_case aenc_op_4c 0x4c => prim_emits_alu32 e 0x09 s d .or rfl hsl hdl
+aenc_case aenc_op_54 0x54 => prim_emits_alu32Imm32_bv e 4 d .and i.imm rfl hdl
+aenc_case aenc_op_5c 0x5c => prim_emits_alu32 e 0x21 s d .and rfl hsl hdl
+aenc_case aenc_op_64 0x64 => prim_emits_shiftI32_bv e 4 d .shl i.imm rfl hdl
+aenc_case aenc_op_6c 0x6c =>
+  prim_emits_cons (prim_emits_mov e s JitEmit.RCX hsl (by decide)) (prim_emits_shiftCl32 _ 4 d .shl rfl hdl)
+aenc_case aenc_op_74 0x74 => prim_emits_shiftI32_bv e 5 d .shr i.imm rfl hdl
+aenc_case aenc_op_7c 0x7c =>
+  prim_emits_cons (prim_emits_mov e s JitEmit.RCX hsl (by decide)) (prim_emits_shiftCl32 _ 5 d .shr rfl hdl)
+aenc_case aenc_op_84 0x84 => prim_emits_neg32 e d hdl
+aenc_case aenc_op_a4 0xa4 => prim_emits_alu32Imm32_bv e 6 d .xor i.imm rfl hdl
+aenc_case aenc_op_ac 0xac => prim_emits_alu32 e 0x31 s d .xor rfl hsl hdl
+aenc_case aenc_op_b4 0xb4 => prim_emits_movImm32_bv e d i.imm hdl
+aenc_case aenc_op_bc 0xbc => prim_emits_alu32 e 0x89 s d .mov rfl hsl hdl
+aenc_case aenc_op_c4 0xc4 => prim_emits_shiftI32_bv e 7 d .sar i.imm rfl hdl
+aenc_case aenc_op_cc 0xcc =>
+  prim_emits_cons (prim_emits_mov e s JitEmit.RCX hsl (by decide)) (prim_emits_shiftCl32 _ 7 d .sar rfl hdl)
+
+-- ---------------------------------------------------------------------------------------------------------
+-- byte swaps: the arms branch on the immediate (16 / 32 / 64, anything else is `unreachable!()`)
+
+theorem aenc_toInt_16 (v : BitVec 32) : v.toInt = 16 ↔ v = 16 := (BitVec.toInt_inj (x := v) (y := 16#32))
+theorem aenc_toInt_32 (v : BitVec 32) : v.toInt = 32 ↔ v = 32 := (BitVec.toInt_inj (x := v) (y := 32#32))
+theorem aenc_toInt_64 (v : BitVec 32) : v.toInt = 64 ↔ v = 64 := (BitVec.toInt_inj (x := v) (y := 64#32))
+
+theorem aenc_emit_d4 (e : Em) (haddr : Nat → Option Nat) (pc : Nat) (i : Insn) (nx : Option Insn) (d s : Nat)
+    (ho : i.opc.toNat = 0xd4) (hd : mapRegister? i.dst.toNat = some d) (hs : mapRegister? i.src.toNat = some s) :
+    JitEmit.arm e haddr pc i nx =
+      if i.imm.toInt = 16 then .ok (JitEmit.emitAlu32Imm32 e 0x81 4 d 0xffff, 1)
+      else if i.imm.toInt = 32 then .ok (JitEmit.emitAlu32 e 0x89 d d, 1)
+      else if i.imm.toInt = 64 then .ok (e, 1) else .error .panic := by
+  aenc_arm ho hd hs
+
+theorem aenc_ast_d4 (haddr : Nat → Option Nat) (pc : Nat) (i : Insn) (nx : Option Insn) (d s : Nat)
+    (ho : i.opc.toNat = 0xd4) (hd : mapRegister? i.dst.toNat = some d) (hs : mapRegister? i.src.toNat = some s) :
+    JitAst.arm haddr pc i nx =
+      if i.imm = 16 then .ok ([.i (.aluRI false .and d 0xffff#32)], 1)
+      else if i.imm = 32 then .ok ([.i (.aluRR false .mov d d)], 1)
+      else if i.imm = 64 then .ok ([], 1) else .error .panic := by
+  aenc_arm ho hd hs
+
+theorem aenc_op_d4 (e e' : Em) (haddr : Nat → Option Nat) (pc n : Nat) (i : Insn) (nx : Option Insn) (d s : Nat)
+    (ho : i.opc.toNat = 0xd4) (hd : mapRegister? i.dst.toNat = some d) (hs : mapRegister? i.src.toNat = some s)
+    (hdl : d < 16) (h : JitEmit.arm e haddr pc i nx = .ok (e', n)) :
+    ∃ ais, JitAst.arm haddr pc i nx = .ok (ais, n) ∧ Emits e e' ais := by
+  rw [aenc_emit_d4 e haddr pc i nx d s ho hd hs] at h
+  rw [aenc_ast_d4 haddr pc i nx d s ho hd hs]
+  simp only [aenc_toInt_16, aenc_toInt_32, aenc_toInt_64] at h
+  by_cases c16 : i.imm = 16
+  · rw [if_pos c16] at h ⊢
+    cases h
+    exact ⟨_, rfl, prim_emits_and32_ffff e d hdl⟩
+  · rw [if_neg c16] at h ⊢
+    by_cases c32 : i.imm = 32
+    · rw [if_pos c32] at h ⊢
+      cases h
+      exact ⟨_, rfl, prim_emits_alu32 e 0x89 d d .mov rfl hdl hdl⟩
+    · rw [if_neg c32] at h ⊢
+      by_cases c64 : i.imm = 64
+      · rw [if_pos c64] at h ⊢
+        cases h
+        exact ⟨_, rfl, prim_emits_refl e⟩
+      · rw [if_neg c64] at h
+        cases h
+
+theorem aenc_emit_dc (e : Em) (haddr : Nat → Option Nat) (pc : Nat) (i : Insn) (nx : Option Insn) (d s : Nat)
+    (ho : i.opc.toNat = 0xdc) (hd : mapRegister? i.dst.toNat = some d) (hs : mapRegister? i.src.toNat = some s) :
+    JitEmit.arm e haddr pc i nx =
+      if i.imm.toInt = 16 then
+        .ok (JitEmit.emitAlu32Imm32 (JitEmit.emitAlu32Imm8 (JitEmit.emit1 e 0x66) 0xc1 0 d 8) 0x81 4 d 0xffff, 1)
+      else if i.imm.toInt = 32 ∨ i.imm.toInt = 64 then
+        .ok (JitEmit.emit1 (JitEmit.emit1 (JitEmit.emitBasicRex e (if i.imm.toInt = 64 then 1 else 0) 0 d) 0x0f) (0xc8 ||| (d &&& 7)), 1)
+      else .error .panic := by
+  aenc_arm ho hd hs
+
+theorem aenc_ast_dc (haddr : Nat → Option Nat) (pc : Nat) (i : Insn) (nx : Option Insn) (d s : Nat)
+    (ho : i.opc.toNat = 0xdc) (hd : mapRegister? i.dst.toNat = some d) (hs : mapRegister? i.src.toNat = some s) :
+    JitAst.arm haddr pc i nx =
+      if i.imm = 16 then .ok ([.i (.shiftI 16 .rol d 8), .i (.aluRI false .and d 0xffff#32)], 1)
+      else if i.imm = 32 then .ok ([.i (.bswap false d)], 1)
+      else if i.imm = 64 then .ok ([.i (.bswap true d)], 1) else .error .panic := by
+  aenc_arm ho hd hs
+
+theorem aenc_op_dc (e e' : Em) (haddr : Nat → Option Nat) (pc n : Nat) (i : Insn) (nx : Option Insn) (d s : Nat)
+    (ho : i.opc.toNat = 0xdc) (hd : mapRegister? i.dst.toNat = some d) (hs : mapRegister? i.src.toNat = some s)
+    (hdl : d < 16) (h : JitEmit.arm e haddr pc i nx = .ok (e', n)) :
+    ∃ ais, JitAst.arm haddr pc i nx = .ok (ais, n) ∧ Emits e e' ais := by
+  rw [aenc_emit_dc e haddr pc i nx d s ho hd hs] at h
+  rw [aenc_ast_dc haddr pc i nx d s ho hd hs]
+  simp only [aenc_toInt_16, aenc_toInt_32, aenc_toInt_64] at h
+  by_cases c16 : i.imm = 16
+  · rw [if_pos c16] at h ⊢
+    cases h
+    exact ⟨_, rfl, prim_emits_cons (prim_emits_rol16 e d hdl) (prim_emits_and32_ffff _ d hdl)⟩
+  · rw [if_neg c16] at h ⊢
+    by_cases c32 : i.imm = 32
+    · have c64 : ¬ i.imm = 64 := by rw [c32]; decide
+      rw [if_pos (Or.inl c32), if_neg c64] at h
+      rw [if_pos c32]
+      cases h
+      exact ⟨_, rfl, prim_emits_bswap32 e d hdl⟩
+    · rw [if_neg c32]
+      by_cases c64 : i.imm = 64
+      · rw [if_pos (Or.inr c64), if_pos c64] at h
+        rw [if_pos c64]
+        cases h
+        exact ⟨_, rfl, prim_emits_bswap64 e d hdl⟩
+      · rw [if_neg (fun hh => hh.elim c32 c64)] at h
+        cases h
+
+-- ---------------------------------------------------------------------------------------------------------
+-- `lddw`: two slots
+
+theorem aenc_op_18 (e e' : Em) (haddr : Nat → Option Nat) (pc n : Nat) (i : Insn) (nx : Option Insn) (d s : Nat)
+    (ho : i.opc.toNat = 0x18) (hd : mapRegister? i.dst.toNat = some d) (hs : mapRegister? i.src.toNat = some s)
+    (hdl : d < 16) (h : JitEmit.arm e haddr pc i nx = .ok (e', n)) :
+    ∃ ais, JitAst.arm haddr pc i nx = .ok (ais, n) ∧ Emits e e' ais := by
+  cases nx with
+  | none =>
+    have h1 : JitEmit.arm e haddr pc i none = .error .panic := by aenc_arm ho hd hs
+    rw [h1] at h
+    cases h
+  | some x =>
+    exact aenc_finish (k := 2) h (prim_emits_lddw e d i.imm x.imm hdl) (by aenc_arm ho hd hs) (by aenc_arm ho hd hs)
+
+-- ---------------------------------------------------------------------------------------------------------
 
 theorem arm_enc_alu (e e' : Em) (haddr : Nat → Option Nat) (pc n : Nat) (i : Insn) (nx : Option Insn)
     (hc : i.opc.toNat ∈ aluOpcodes)
     (h : JitEmit.arm e haddr pc i nx = .ok (e', n)) :
     ∃ ais, JitAst.arm haddr pc i nx = .ok (ais, n) ∧ Emits e e' ais := by
-  sorry
+  obtain ⟨d, s, hd, hs⟩ := prim_arm_regs h
+  have hdl := prim_mapRegister_lt hd
+  have hsl := prim_mapRegister_lt hs
+  simp only [aluOpcodes, List.mem_cons, List.not_mem_nil, or_false] at hc
+  rcases hc with ho | ho | ho | ho | ho | ho | ho | ho | ho | ho | ho | ho | ho | ho | ho | ho | ho | ho | ho |
+    ho | ho | ho | ho | ho | ho | ho | ho | ho | ho | ho | ho | ho | ho | ho | ho | ho | ho | ho | ho | ho | ho
+  · exact aenc_op_07 e e' haddr pc n i nx d s ho hd hs hdl hsl h
+  · exact aenc_op_0f e e' haddr pc n i nx d s ho hd hs hdl hsl h
+  · exact aenc_op_17 e e' haddr pc n i nx d s ho hd hs hdl hsl h
+  · exact aenc_op_1f e e' haddr pc n i nx d s ho hd hs hdl hsl h
+  · exact aenc_op_47 e e' haddr pc n i nx d s ho hd hs hdl hsl h
+  · exact aenc_op_4f e e' haddr pc n i nx d s ho hd hs hdl hsl h
+  · exact aenc_op_57 e e' haddr pc n i nx d s ho hd hs hdl hsl h
+  · exact aenc_op_5f e e' haddr pc n i nx d s ho hd hs hdl hsl h
+  · exact aenc_op_67 e e' haddr pc n i nx d s ho hd hs hdl hsl h
+  · exact aenc_op_6f e e' haddr pc n i nx d s ho hd hs hdl hsl h
+  · exact aenc_op_77 e e' haddr pc n i nx d s ho hd hs hdl hsl h
+  · exact aenc_op_7f e e' haddr pc n i nx d s ho hd hs hdl hsl h
+  · exact aenc_op_87 e e' haddr pc n i nx d s ho hd hs hdl hsl h
+  · exact aenc_op_a7 e e' haddr pc n i nx d s ho hd hs hdl hsl h
+  · exact aenc_op_af e e' haddr pc n i nx d s ho hd hs hdl hsl h
+  · exact aenc_op_b7 e e' haddr pc n i nx d s ho hd hs hdl hsl h
+  · exact aenc_op_bf e e' haddr pc n i nx d s ho hd hs hdl hsl h
+  · exact aenc_op_c7 e e' haddr pc n i nx d s ho hd hs hdl hsl h
+  · exact aenc_op_cf e e' haddr pc n i nx d s ho hd hs hdl hsl h
+  · exact aenc_op_04 e e' haddr pc n i nx d s ho hd hs hdl hsl h
+  · exact aenc_op_0c e e' haddr pc n i nx d s ho hd hs hdl hsl h
+  · exact aenc_op_14 e e' haddr pc n i nx d s ho hd hs hdl hsl h
+  · exact aenc_op_1c e e' haddr pc n i nx d s ho hd hs hdl hsl h
+  · exact aenc_op_44 e e' haddr pc n i nx d s ho hd hs hdl hsl h
+  · exact aenc_op_4c e e' haddr pc n i nx d s ho hd hs hdl hsl h
+  · exact aenc_op_54 e e' haddr pc n i nx d s ho hd hs hdl hsl h
+  · exact aenc_op_5c e e' haddr pc n i nx d s ho hd hs hdl hsl h
+  · exact aenc_op_64 e e' haddr pc n i nx d s ho hd hs hdl hsl h
+  · exact aenc_op_6c e e' haddr pc n i nx d s ho hd hs hdl hsl h
+  · exact aenc_op_74 e e' haddr pc n i nx d s ho hd hs hdl hsl h
+  · exact aenc_op_7c e e' haddr pc n i nx d s ho hd hs hdl hsl h
+  · exact aenc_op_84 e e' haddr pc n i nx d s ho hd hs hdl hsl h
+  · exact aenc_op_a4 e e' haddr pc n i nx d s ho hd hs hdl hsl h
+  · exact aenc_op_ac e e' haddr pc n i nx d s ho hd hs hdl hsl h
+  · exact aenc_op_b4 e e' haddr pc n i nx d s ho hd hs hdl hsl h
+  · exact aenc_op_bc e e' haddr pc n i nx d s ho hd hs hdl hsl h
+  · exact aenc_op_c4 e e' haddr pc n i nx d s ho hd hs hdl hsl h
+  · exact aenc_op_cc e e' haddr pc n i nx d s ho hd hs hdl hsl h
+  · exact aenc_op_d4 e e' haddr pc n i nx d s ho hd hs hdl h
+  · exact aenc_op_dc e e' haddr pc n i nx d s ho hd hs hdl h
+  · exact aenc_op_18 e e' haddr pc n i nx d s ho hd hs hdl h
 
 end Rbpf.JitEnc
